@@ -37,6 +37,7 @@ type script struct {
 	Auto    bool   `json:"auto"` // task functions return by themselves after HoldMs
 	HoldMs  int    `json:"holdMs"`
 	FreeH   bool   `json:"freeHandlers"` // the queue and schedule handlers are not parked at yield points
+	Panics  []int  `json:"panics"`       // tasks whose function panics instead of returning (every run)
 	Steps   []step `json:"steps"`
 }
 
@@ -78,9 +79,19 @@ func taskFn(k int) func(context.Context, *modules.Task) error {
 		mu.Lock()
 		running[k] = false
 		mu.Unlock()
+		for _, p := range sc.Panics {
+			if p == k {
+				panic(fmt.Sprintf("injected panic in task %d", k))
+			}
+		}
 		return nil
 	}
 }
+
+var (
+	repeating = map[int]bool{}
+	maxRepMs  int
+)
 
 func anyRunning() bool {
 	mu.Lock()
@@ -159,6 +170,14 @@ func main() {
 			if !sc.FreeH {
 				sch.Yield(point, "")
 			}
+		case "task.deferred":
+			// the deferred bookkeeping of a panicking run is slow (the panic is reported first): whatever the code
+			// releases before it has reset the task's state gets a head start
+			for _, p := range sc.Panics {
+				if p == tagTask(m) {
+					time.Sleep(30 * time.Millisecond)
+				}
+			}
 		case "task.checked":
 			emit(map[string]any{"e": "checked", "task": tagTask(m), "by": sch.Actor()})
 			if a := sch.Actor(); (a == "qh" || a == "sh") && !sc.FreeH {
@@ -216,6 +235,24 @@ func main() {
 				at := base + st.At*sc.Unit
 				emit(map[string]any{"e": "sub", "task": st.T, "kind": "schedule", "at": at})
 				t.Schedule(t0.Add(time.Duration(st.At*sc.Unit) * time.Millisecond))
+			case "repeat":
+				// Task.Repeat with an interval of st.At clock units (through the verif accessor: the API itself
+				// enforces a minimum of one minute)
+				iv := st.At * sc.Unit
+				mu.Lock()
+				repeating[st.T] = true
+				if iv > maxRepMs {
+					maxRepMs = iv
+				}
+				mu.Unlock()
+				emit(map[string]any{"e": "sub", "task": st.T, "kind": "repeat", "at": sch.Ms() + iv, "iv": iv})
+				modules.VerifRepeat(t, time.Duration(iv)*time.Millisecond)
+			case "repeatoff":
+				t.Repeat(0)
+				mu.Lock()
+				repeating[st.T] = false
+				mu.Unlock()
+				emit(map[string]any{"e": "repoff", "task": st.T})
 			case "queue":
 				emit(map[string]any{"e": "sub", "task": st.T, "kind": "queue", "at": 0})
 				t.Queue()
@@ -268,6 +305,21 @@ func main() {
 		}
 	}
 	sch.Free()
+	// repeating tasks stop repeating now (what is scheduled stays scheduled: one more run each)
+	stopped := false
+	for k := 1; k <= sc.N; k++ {
+		mu.Lock()
+		r := repeating[k]
+		mu.Unlock()
+		if r {
+			tasks[k-1].Repeat(0)
+			emit(map[string]any{"e": "repoff", "task": k})
+			stopped = true
+		}
+	}
+	if stopped || maxRepMs > 0 {
+		time.Sleep(time.Duration(maxRepMs+350) * time.Millisecond)
+	}
 	// every scheduled time must have passed by a good margin before the final judgement
 	if d := time.Until(t0.Add(time.Duration(lastSched*sc.Unit+350) * time.Millisecond)); d > 0 {
 		time.Sleep(d)
